@@ -3,10 +3,10 @@
 package main
 
 import (
-	"crypto/sha1"
-	"encoding/base64"
 	"bufio"
 	"context"
+	"crypto/sha1"
+	"encoding/base64"
 	"fmt"
 	"net"
 	"net/http"
